@@ -2816,15 +2816,18 @@ ErrorCode oas_precision(const char* filename, double& precision) {
     OasisStream s = {in};
     uint64_t len;
     uint8_t* version = oasis_read_string(s, false, len);
-    if (memcmp(version, "1.0", 3) != 0) {
+    if (version == NULL || len != 3 || memcmp(version, "1.0", 3) != 0) {
         if (error_logger) fputs("[GDSTK] Unsupported OASIS file version.\n", error_logger);
-        free_allocation(version);
+        if (version) free_allocation(version);
+        fclose(in);
         return ErrorCode::InvalidFile;
     }
     free_allocation(version);
 
-    precision = 1e-6 / oasis_read_real(s);
+    double grid = oasis_read_real(s);
     fclose(in);
+    if (s.error_code != ErrorCode::NoError) return s.error_code;
+    precision = 1e-6 / grid;
     return ErrorCode::NoError;
 }
 
